@@ -64,6 +64,11 @@ fn main() {
             arg(&args, "--tier").map(|t| t == "thorough").unwrap_or(false),
             arg(&args, "--seed").and_then(|v| v.parse().ok()).unwrap_or(1),
         ),
+        "scale" => convert::scale(
+            &arg(&args, "--out").unwrap_or_else(|| "out/scale".into()),
+            arg(&args, "--tier").map(|t| t == "thorough").unwrap_or(false),
+            arg(&args, "--seed").and_then(|v| v.parse().ok()).unwrap_or(1),
+        ),
         "sweep" => convert::sweep(&arg(&args, "--out").unwrap_or_else(|| "out/sweep".into()), &arg(&args, "--what").unwrap_or_else(|| "u32".into())),
         "conc-probe" => conc::probe(),
         "rerun" => drive::rerun(&arg(&args, "--in").expect("--in"), &arg(&args, "--out").expect("--out")),
